@@ -1,14 +1,22 @@
-From Coq Require Import List ZArith.
+From Coq Require Import List ZArith Ascii.
 From Echo Require Import Base.Sx Mw.Slash.
 Import ListNotations.
 Open Scope Z_scope.
 (* input: (component path qs isdir); component 0 AddTrailingSlash, 1 RemoveTrailingSlash, 2/3 Echo/Group static
-   output: (1 location) | (0 #) *)
+   4/5 Add/RemoveTrailingSlash without redirect code (forwarding)
+   output: (1 location) | (0 #) | (2 path-seen modified new-request-uri) *)
+Definition fwd_sx (r : list Ascii.ascii * option (list Ascii.ascii)) : sx :=
+  match r with
+  | (p, Some u) => SL [SZ 2; SS p; SZ 1; SS u]
+  | (p, None) => SL [SZ 2; SS p; SZ 0; SS []]
+  end.
 Definition run_sx (x : sx) : sx :=
   let comp := as_Z (nth_sx 0 x) in
   let path := as_str (nth_sx 1 x) in
   let qs := as_str (nth_sx 2 x) in
   let isdir := as_bool (nth_sx 3 x) in
+  if comp =? 4 then fwd_sx (add_slash_forward path qs) else
+  if comp =? 5 then fwd_sx (remove_slash_forward path qs) else
   let r := match comp with
            | 0 => add_slash path qs
            | 1 => remove_slash path qs
